@@ -285,3 +285,34 @@ def quantifier(node):
                 pred = ast.UnaryOp(op=ast.Not(), operand=pred)
             return kind, g.generators[0].iter, g.generators[0].target, pred
     return None
+
+
+def reject_predicate(func):
+    """The per-element condition that makes a for-all check fail, from either spelling:
+         for x in IT: if P(x): return False            -> (x, IT, P)
+         ... = not any(P(x) for x in IT) / all(Q(x) for x in IT) / if not all(Q ...): return False   -> (x, IT, P)  with P = not Q
+       Returns (target node, iter node, predicate node, anchor node) or None."""
+    for n in func.walk():
+        if isinstance(n, ast.For):
+            for st in n.body:
+                if isinstance(st, ast.If) and not st.orelse and any(isinstance(x, ast.Return) and const_val(x.value) is False for x in st.body):
+                    return n.target, n.iter, st.test, st
+    for n in func.walk():
+        if isinstance(n, ast.UnaryOp) and isinstance(n.op, ast.Not) and isinstance(n.operand, ast.Call) and call_name(n.operand) in ('any', 'all'):
+            q = quantifier(n)
+            if q is None:
+                continue
+            kind, it, tgt, pred = q
+            par = getattr(n, '_parent', None)
+            if call_name(n.operand) == 'any':
+                # not any(P): fails (False) iff some P
+                return tgt, it, n.operand.args[0].elt, n
+            # not all(Q): used as `if not all(Q): return False` -> fails iff some not Q
+            return tgt, it, ast.UnaryOp(op=ast.Not(), operand=n.operand.args[0].elt), n
+    for n in func.walk():
+        if isinstance(n, ast.Call) and call_name(n) == 'all' and isinstance(getattr(n, '_parent', None), (ast.Assign, ast.Return)):
+            q = quantifier(n)
+            if q is not None:
+                kind, it, tgt, pred = q
+                return tgt, it, ast.UnaryOp(op=ast.Not(), operand=pred), n
+    return None
